@@ -139,6 +139,19 @@ var _ = ws.StateServerSide
 //@   ensures [asnew] c.w == w && c.mask == mask && c.pos == 0
 //@   assigns *c
 
+// CipherWriter.Write: what reaches the destination is p XOR the key, continuing at the position
+// reached by earlier writes; the caller's slice is left untouched (C02, C17).
+//@ func CipherWriter.Write
+//@   props C02 C17
+//@   requires [w]    c.w != nil && 0 <= c.pos && c.pos <= 1<<61 && len(p) <= 1<<47
+//@   ensures  [n]    0 <= n && n <= len(p) && (err == nil ==> n == len(p))
+//@   ensures  [len]  outLen(c.w) == old(outLen(c.w))+n
+//@   ensures  [pos]  c.pos == old(c.pos)+n
+//@   ensures  [data] forall(0, n, func(k int) bool { return outByte(c.w, old(outLen(c.w))+k) == p[k]^c.mask[ws.VMaskIdx(old(c.pos), k)] })
+//@   ensures  [keep] forall(0, old(outLen(c.w)), func(k int) bool { return outByte(c.w, k) == old(outByte(c.w, k)) })
+//@   ensures  [same] c.w == old(c.w) && c.mask == old(c.mask)
+//@   assigns c.pos, stream(c.w)
+
 // ---------------------------------------------------------------------------
 // Fragmenting writer (C06, C16, C18).
 
@@ -864,3 +877,28 @@ func iteReader(c bool, a, b io.Reader) io.Reader {
 //@   call ControlHandler.HandlePong havoc
 //@   call ControlHandler.HandleClose havoc
 //@   ensures [other] h.OpCode != ws.OpPing && h.OpCode != ws.OpPong && h.OpCode != ws.OpClose ==> result == ErrNotControlFrame
+
+// Writer pool (C18). The pool is a dependency; what is assumed of it: Get hands out either nothing
+// or a *Writer that PutWriter stored earlier (so its buffer is one that a constructor made), and
+// the size it reports is at least the size asked for.
+//@ func pool.Pool.Get
+//@   ensures [typed] result0 != nil ==> dynTypeIs(result0, "*wsutil.Writer") && result0.(*Writer) != nil && len(result0.(*Writer).raw) > 14 && len(result0.(*Writer).raw) <= 1<<40
+//@   ensures [size]  result1 == size || (result1 >= size && result1 >= 128 && result1 <= 65536)
+//@   assigns nothing
+
+//@ func pool.Pool.Put
+//@   trusted
+//@   assigns nothing
+
+//@ func GetWriter
+//@   props C18
+//@   requires [n] 0 <= n && n <= 1<<39 && (n <= 2 || n > 14) && op < 16 && DefaultWriteBuffer > 14 && DefaultWriteBuffer <= 1<<40
+//@   ensures  [new]  result != nil && result.dest == dest && result.state == state && result.op == op
+//@   ensures  [zero] result.n == 0 && !result.dirty && result.fseq == 0 && len(result.extensions) == 0 && !result.noFlush && result.err == nil
+//@   ensures  [inv]  invWriter(result)
+
+//@ func PutWriter
+//@   props C18
+//@   requires [room] w != nil && len(w.raw) > 14 && len(w.raw) <= 1<<47
+//@   ensures  [drop] w.dest == nil && w.n == 0 && w.err == nil && len(w.extensions) == 0 && !w.noFlush && !w.dirty && w.fseq == 0
+//@   assigns *w
